@@ -227,7 +227,7 @@ static void run_guardq(void)
 
 /*
  * "guardorder" (registered under C06): every assignment of priorities {0,1,2} to n waiters that arrive one after
- * the other, every choice of one waiter that leaves from inside the list (cancelled by a third party or timing
+ * the other (at distinct times, or with together=1 all in the same instant), every choice of one waiter that leaves from inside the list (cancelled by a third party or timing
  * out), every pair of priorities for two late arrivals; then the holder releases and everybody is served in
  * turn. The order of service is compared with the model: higher priority first, equal priorities by arrival.
  */
@@ -280,7 +280,10 @@ static void run_guardorder(void)
         retsig[i] = 777;
         cmb_process_initialize(&procs[i], "q", go_body, (void *)(intptr_t)i, go_prio[i]);
         /* arrivals at distinct times; the late ones after the leaver has left (t=2 or t=3), before the release at t=10 */
-        cmb_event_schedule(go_start, &procs[i], NULL, i <= n ? 0.1 * i : 4.0 + 0.1 * i, 0);
+        /* together=1: the first n arrive in one instant, the late ones in another (order of arrival = order of the start
+         * events, which is first in first out) */
+        const bool together = vx_opt_int("together", 0) != 0;
+        cmb_event_schedule(go_start, &procs[i], NULL, together ? (i <= n ? 1.0 : 5.0) : (i <= n ? 0.1 * i : 4.0 + 0.1 * i), 0);
     }
     if (op == 0) {
         cmb_event_schedule(go_cancel, &procs[victim], NULL, 2.0, 0);
@@ -485,6 +488,134 @@ static void run_oqueue(void)
     vx_outcome((uint64_t)big_n);
     vx_state((uint64_t)big_n);
     cmb_objectqueue_terminate(&oq);
+}
+
+/*
+ * "pqorder" (registered under C12): n objects (beyond the queue's initial 8 slots) with every assignment of two
+ * priority levels (ties are first in first out, so every assignment is a different total order), then one object
+ * - every position - is cancelled or moved to the top or bottom priority; positions are compared with the model
+ * before and after, and the drain must deliver the remaining objects in model order.
+ */
+static int po_n, po_prio[40], po_target, po_action;
+static struct cmb_priorityqueue po_q;
+
+static int po_model(const int *prio, const bool *gone, int n, int *out)
+{
+    int m = 0;
+    for (int i = 0; i < n; i++) {
+        if (!gone[i]) {
+            out[m++] = i;
+        }
+    }
+    for (int a = 1; a < m; a++) {       /* insertion sort: priority descending, handle (= put order) ascending */
+        const int v = out[a];
+        int b = a - 1;
+        while (b >= 0 && prio[out[b]] < prio[v]) {
+            out[b + 1] = out[b];
+            b--;
+        }
+        out[b + 1] = v;
+    }
+    return m;
+}
+
+static bool po_positions(const uint64_t *h, const int *prio, const bool *gone, int n, const char *when)
+{
+    int order[40];
+    const int m = po_model(prio, gone, n, order);
+    if (cmb_priorityqueue_length(&po_q) != (uint64_t)m) {
+        FAIL("length", "%s: length %" PRIu64 ", model %d", when, cmb_priorityqueue_length(&po_q), m);
+        return false;
+    }
+    for (int k = 0; k < m; k++) {
+        const uint64_t pos = cmb_priorityqueue_position(&po_q, h[order[k]]);
+        if (pos != (uint64_t)k + 1) {
+            FAIL("position", "%s: object %d (priority %d) is at position %" PRIu64 ", model %d", when, order[k],
+                 prio[order[k]], pos, k + 1);
+            return false;
+        }
+    }
+    for (int i = 0; i < n; i++) {
+        if (gone[i] && cmb_priorityqueue_position(&po_q, h[i]) != 0) {
+            FAIL("position-of-cancelled", "%s: cancelled object %d still has a position", when, i);
+            return false;
+        }
+    }
+    return true;
+}
+
+static void *po_body(struct cmb_process *me, void *ctx)
+{
+    (void)me;
+    (void)ctx;
+    uint64_t h[40];
+    int prio[40];
+    bool gone[40] = { false };
+    for (int i = 0; i < po_n; i++) {
+        prio[i] = po_prio[i];
+        cmb_priorityqueue_put(&po_q, (void *)(uintptr_t)(i + 1), prio[i], &h[i]);
+    }
+    if (!po_positions(h, prio, gone, po_n, "after the puts")) {
+        return NULL;
+    }
+    if (po_action == 0) {
+        if (!cmb_priorityqueue_cancel(&po_q, h[po_target])) {
+            FAIL("cancel-return", "cancel of queued object %d returned false", po_target);
+            return NULL;
+        }
+        gone[po_target] = true;
+        if (cmb_priorityqueue_cancel(&po_q, h[po_target])) {
+            FAIL("cancel-return", "second cancel of object %d returned true", po_target);
+            return NULL;
+        }
+    }
+    else {
+        prio[po_target] = po_action == 1 ? 5 : -5;
+        cmb_priorityqueue_reprioritize(&po_q, h[po_target], prio[po_target]);
+    }
+    if (!po_positions(h, prio, gone, po_n, po_action == 0 ? "after the cancel" : "after the change of priority")) {
+        return NULL;
+    }
+    int order[40];
+    const int m = po_model(prio, gone, po_n, order);
+    for (int k = 0; k < m; k++) {
+        void *o = NULL;
+        const int64_t r = cmb_priorityqueue_get(&po_q, &o);
+        if (r != CMB_PROCESS_SUCCESS || o != (void *)(uintptr_t)(order[k] + 1)) {
+            FAIL("delivery", "get %d delivered object %d, model object %d (priority %d); %s of object %d",
+                 k + 1, (int)(uintptr_t)o - 1, order[k], prio[order[k]],
+                 po_action == 0 ? "after cancel" : "after reprioritisation", po_target);
+            return NULL;
+        }
+    }
+    if (cmb_priorityqueue_length(&po_q) != 0) {
+        FAIL("length", "length %" PRIu64 " after everything was delivered", cmb_priorityqueue_length(&po_q));
+    }
+    return NULL;
+}
+
+static void run_pqorder(void)
+{
+    po_n = (int)vx_opt_int("n", 12);
+    for (int i = 0; i < po_n; i++) {
+        po_prio[i] = vx_choose_free(2, "priority");
+    }
+    po_target = vx_choose_free(po_n, "target");
+    po_action = vx_choose_free(3, "action");
+    cmb_priorityqueue_initialize(&po_q, "PQ", CMB_UNLIMITED);
+    cmb_process_initialize(&procs[0], "p", po_body, NULL, 0);
+    nprocs = 1;
+    cmb_process_start(&procs[0]);
+    while (cmb_event_execute_next()) {
+    }
+    vx_transitions((uint64_t)po_n * 2 + 1);
+    uint64_t hsh = (uint64_t)po_target * 3 + (uint64_t)po_action;
+    for (int i = 0; i < po_n; i++) {
+        hsh = hsh * 2 + (uint64_t)po_prio[i];
+    }
+    vx_outcome(hsh);
+    vx_state(hsh);
+    cmb_priorityqueue_terminate(&po_q);
 }
 
 /* ---- observers: N observers registered on one guard (256 tags per chunk) */
@@ -822,6 +953,7 @@ static void run_one(void)
     else if (!strcmp(mode, "closing")) run_closing();
     else if (!strcmp(mode, "restart")) run_restart();
     else if (!strcmp(mode, "guardorder")) run_guardorder();
+    else if (!strcmp(mode, "pqorder")) run_pqorder();
     else run_procwait();
     for (int i = 0; i < NP; i++) {
         if (procs[i].core.stack != NULL) {
